@@ -138,4 +138,6 @@ def search(ctx):
 
 
 def replay(ctx, data):
+    if "input" not in data:
+        return appcheck.replay_nofail(ctx, data, run)
     return appcheck.replay_scenario(ctx, "C15", data, extra_check=extra)
